@@ -54,6 +54,7 @@ mutual
       | .ret n => afterSimple ctx s (.break_ (.return_ n))
       | .exit n => afterSimple ctx s (.break_ (.exit n))
       | .setE on => afterSimple ctx { s with errexit := on, status := 0 } .continue_
+      | .setM on => afterSimple ctx { s with monitor := on, status := 0 } .continue_
       | .unknown => afterSimple ctx { s with status := 127 } .continue_
       | .tick c k =>
         let v := getCounter s.counters c
